@@ -7,7 +7,7 @@ import re
 
 from . import rule
 from .zmq import anchors, Z, MQF, ret_const, stmt_list_containing
-from ..model import Unresolved, walk_scope, parent
+from ..model import Unresolved, walk_scope, parent, ancestors
 from ..paths import U, Path
 from .. import q
 
@@ -339,6 +339,41 @@ def r6(rr, repo):
             rr.ob(f'inside the loop the flag {name} only moves away from the value the positive answer needs (monotone over sources)',
                   bool(st.value.value) != need[name], za.mod, st, key=f'monotone|{name}')
     rr.floor('paths of the completion decision that answer True', n, 1, za.mod, iff)
+    completion_converse(rr, za, iff, paths)
+
+
+def completion_converse(rr, za, iff, paths):
+    """The other direction of the completion decision: when every inspected source is complete or tolerably empty (an ephemeral source with nothing; any
+    source under balanced sources), at least one is complete and nothing more is waiting, the set IS reported - an idle listener or the other branches of
+    a balanced join must not hold it back."""
+    k = 0
+    for p in paths:
+        isret, isconst, val = ret_const(p)
+        answered_true = p.outcome is not None and isret and isconst and val is True
+        bal = p.facts.get('truthy(self.balance)')
+        states = []
+        for el in ('__elem__(', '__elem2__('):
+            ga = [v for kk, v in p.facts.items() if kk.startswith('eq(') and "'all'" in kk and el in kk and '.got' in kk]
+            gn = [v for kk, v in p.facts.items() if kk.startswith('eq(') and "'none'" in kk and el in kk and '.got' in kk]
+            eph = [v for kk, v in p.facts.items() if kk.startswith(f'truthy({el}') and kk.endswith('.ephemeral)')]
+            if not ga and not gn:
+                continue
+            if ga and ga[0] is True:
+                states.append('all')
+            elif gn and gn[0] is True:
+                # tolerated for at least one valuation of what the path left untested
+                states.append('none-ok' if ((eph and eph[0] is True) or bal is True or (not eph) or bal is None) and not ((eph and eph[0] is False) and bal is False) else 'none-blocks')
+            else:
+                states.append('partial')
+        if not states or 'partial' in states or 'none-blocks' in states or 'all' not in states:
+            continue
+        if p.facts.get('truthy(self.poller.poll(0))') is True:
+            continue
+        its = [e for e in p.events if e.kind == 'for']
+        k += 1
+        rr.ob('a set is reported as soon as every inspected source is complete or tolerably empty (ephemeral with nothing / balanced sources) and one is complete: an idle listener or the other branches of a balanced join do not hold it back',
+              answered_true, za.mod, iff, witness=f'{states}: {p.pc_text()[-260:]}', key=f'complete-reported|{"+".join(sorted(set(states)))}')
+    rr.floor('completion paths that must answer True', k, 3, za.mod, iff)
 
 
 @rule('C01.R7', 'message ids are carried input -> output: recv returns the id of the returned set, MQ.recv keeps it as '
@@ -571,3 +606,55 @@ def r11(rr, repo):
         elif none and none[-1] is False and tp is False:
             rr.ob('equal id, set exists, topics-only message: nothing is stored', not [e for e in stores if 'recvd' in e.term], za.mod, za.R_pm, witness=p.pc_text()[-160:], key='pm-nostore')
     rr.floor('equal-id paths of process_msg', k, 3, za.mod, za.R_pm)
+
+
+@rule('C01.R12', "only topics the publisher does not publish are dropped from a source's set: every removal of a key from the per-id set iterates over (keys of the set) minus (the publisher's topic list of this "
+                 "message), and only explicit subscriptions are pruned - a published topic is never removed, a set can still complete when a subscribed topic does not exist upstream")
+def r12(rr, repo):
+    za = anchors(repo)
+    dels = [d for d in walk_scope(za.R_once) if isinstance(d, ast.Delete) and any(isinstance(t, ast.Subscript) and U(t.value) in ('recvd', 'sender.recvd') for t in d.targets)]
+    pops = [c for c in q.calls_in(za.R_once, into_functions=False) if isinstance(c.func, ast.Attribute) and c.func.attr in ('pop', 'clear', 'popitem') and U(c.func.value) in ('recvd', 'sender.recvd')]
+    rr.floor('removals from the per-id set in recv_once', len(dels) + len(pops), 1, za.mod, za.R_once)
+    for c in pops:
+        rr.unresolved('a key is removed from the per-id set by a method call the rule does not model', za.mod, c, witness=U(c)[:80], key='prune-form')
+    topics_name = 'topics'
+    for d in dels:
+        key = U(d.targets[0].slice)
+        loops = [a for a in ancestors(d) if isinstance(a, ast.For) and U(a.target) == key]
+        if not loops:
+            rr.violated('a key is removed from the per-id set outside a loop over the keys the publisher does not list', za.mod, d, witness=U(d), key='prune-scope')
+            continue
+        it = loops[0].iter
+        # resolve a name bound by a walrus / assignment in the guards of the loop
+        src = it
+        if isinstance(it, ast.Name):
+            defs = [n for n in ast.walk(za.R_once) if isinstance(n, ast.NamedExpr) and n.target.id == it.id] + \
+                   [n for n in ast.walk(za.R_once) if isinstance(n, ast.Assign) and any(isinstance(t, ast.Name) and t.id == it.id for t in n.targets)]
+            src = defs[0].value if len(defs) == 1 else None
+        def strip(n):
+            while isinstance(n, ast.NamedExpr):
+                n = n.value
+            return n
+        ok = False
+        why = U(src)[:100] if src is not None else 'ambiguous'
+        if src is not None:
+            s_ = strip(src)
+            if isinstance(s_, ast.BinOp) and isinstance(s_.op, ast.Sub):
+                l, r = strip(s_.left), strip(s_.right)
+                ok = U(l) in ('set(recvd)', 'recvd.keys()', 'set(recvd.keys())') and U(r) in (f'set({topics_name})', topics_name)
+            elif isinstance(s_, ast.Call) and isinstance(s_.func, ast.Attribute) and s_.func.attr == 'difference':
+                ok = U(strip(s_.func.value)) in ('set(recvd)',) and s_.args and U(strip(s_.args[0])) in (f'set({topics_name})', topics_name)
+        rr.ob("the keys removed are exactly those of the set that the publisher's topic list of this message does not contain (set(recvd) - set(topics))", ok, za.mod, loops[0], witness=why, key='prune-difference')
+        g = q.guards_of(loops[0], stop=za.R_once)
+        flat = []
+        for t, pol in g:
+            if pol and isinstance(t, ast.BoolOp) and isinstance(t.op, ast.And):
+                flat += [(v, True) for v in t.values]
+            else:
+                flat.append((t, pol))
+        flat = [(t.operand, not pol) if isinstance(t, ast.UnaryOp) and isinstance(t.op, ast.Not) else (t, pol) for t, pol in flat]
+        rr.ob('only explicit subscriptions are pruned (a subscribe-all set is built from the topic list itself)', any((not pol) and U(t).endswith('.subscribed_all') for t, pol in flat), za.mod, loops[0],
+              witness=' && '.join(('' if pol else 'not ') + U(t)[:40] for t, pol in flat)[:200], key='prune-explicit-only')
+        # the topic list is the one of THIS message
+        tdef = [n for n in walk_scope(za.R_once) if isinstance(n, ast.Assign) and any(isinstance(t, ast.Name) and t.id == topics_name for t in n.targets)]
+        rr.ob("the topic list is taken from this message's envelope", len(tdef) == 1 and "'topics'" in U(tdef[0].value), za.mod, tdef[0] if tdef else loops[0], witness=U(tdef[0].value)[:60] if tdef else '', key='prune-topics-source')
